@@ -315,6 +315,61 @@ func (tt *termTable) Bin(op opKind, a, b *Term) *Term {
 	if (op == oAnd || op == oOr) && a == b {
 		return a
 	}
+	// division / remainder / multiplication by a power of two
+	if b.op == oConst && b.k != 0 && b.k&(b.k-1) == 0 {
+		sh := uint64(bits.TrailingZeros64(b.k))
+		switch op {
+		case oUDiv:
+			return tt.Bin(oLShr, a, tt.Const(sh, w))
+		case oURem:
+			return tt.Bin(oAnd, a, tt.Const(b.k-1, w))
+		case oMul:
+			return tt.Bin(oShl, a, tt.Const(sh, w))
+		}
+	}
+	if op == oMul && a.op == oConst && a.k != 0 && a.k&(a.k-1) == 0 {
+		return tt.Bin(oShl, b, tt.Const(uint64(bits.TrailingZeros64(a.k)), w))
+	}
+	// x & (2^k - 1)  ==> zext(extract(x, k-1, 0))
+	if op == oAnd {
+		c, x := a, b
+		if b.op == oConst {
+			c, x = b, a
+		}
+		if c.op == oConst && c.k != 0 && c.k != mask(w) && (c.k+1)&c.k == 0 {
+			k := uint8(bits.Len64(c.k))
+			return tt.ZExt(tt.Extract(x, k-1, 0), w)
+		}
+	}
+	// shifts of "placed pieces" and disjoint ors are kept in concat form
+	if op == oShl && b.op == oConst && b.k < uint64(w) && b.k > 0 {
+		if ps, ok := tt.pieces(a); ok {
+			var out []piece
+			for _, p := range ps {
+				lo := int(p.lo) + int(b.k)
+				if lo >= int(w) {
+					continue
+				}
+				t := p.t
+				if lo+int(t.w) > int(w) {
+					t = tt.Extract(t, uint8(int(w)-lo-1), 0)
+				}
+				out = append(out, piece{uint8(lo), t})
+			}
+			return tt.fromPieces(out, w)
+		}
+	}
+	if op == oLShr && b.op == oConst && b.k < uint64(w) && b.k > 0 {
+		// logical shift right = zext of the upper bits
+		return tt.ZExt(tt.Extract(a, w-1, uint8(b.k)), w)
+	}
+	if op == oOr || op == oXor || op == oAdd {
+		pa, oka := tt.pieces(a)
+		pb, okb := tt.pieces(b)
+		if oka && okb && disjoint(pa, pb) {
+			return tt.fromPieces(append(append([]piece(nil), pa...), pb...), w)
+		}
+	}
 	// canonical order for commutative ops
 	switch op {
 	case oAdd, oMul, oAnd, oOr, oXor:
@@ -573,6 +628,43 @@ func (tt *termTable) Extract(a *Term, hi, lo uint8) *Term {
 	if a.op == oZExt && lo >= a.a.w {
 		return tt.Const(0, w)
 	}
+	if a.op == oZExt && lo < a.a.w && hi >= a.a.w {
+		return tt.ZExt(tt.Extract(a.a, a.a.w-1, lo), w)
+	}
+	if a.op == oZExt && hi < a.a.w {
+		return tt.Extract(a.a, hi, lo)
+	}
+	switch a.op {
+	case oExtract:
+		l1 := uint8(a.k)
+		return tt.Extract(a.a, l1+hi, l1+lo)
+	case oConcat:
+		lw := a.b.w
+		if hi < lw {
+			return tt.Extract(a.b, hi, lo)
+		}
+		if lo >= lw {
+			return tt.Extract(a.a, hi-lw, lo-lw)
+		}
+		return tt.Concat(tt.Extract(a.a, hi-lw, 0), tt.Extract(a.b, lw-1, lo))
+	case oAnd, oOr, oXor:
+		return tt.Bin(a.op, tt.Extract(a.a, hi, lo), tt.Extract(a.b, hi, lo))
+	case oNot:
+		return tt.Not(tt.Extract(a.a, hi, lo))
+	case oIte:
+		if a.b.op == oConst || a.c.op == oConst {
+			return tt.Ite(a.a, tt.Extract(a.b, hi, lo), tt.Extract(a.c, hi, lo))
+		}
+	case oAdd, oSub, oMul:
+		if lo == 0 {
+			// low bits of modular arithmetic depend only on low bits
+			return tt.Bin(a.op, tt.Extract(a.a, hi, 0), tt.Extract(a.b, hi, 0))
+		}
+	case oShl:
+		if a.b.op == oConst && uint64(lo) >= a.b.k {
+			return tt.Extract(a.a, hi-uint8(a.b.k), lo-uint8(a.b.k))
+		}
+	}
 	return tt.mk(oExtract, w, a, nil, nil, uint64(hi)<<8|uint64(lo), "")
 }
 
@@ -612,6 +704,17 @@ func (tt *termTable) Concat(hi, lo *Term) *Term {
 	w := hi.w + lo.w
 	if hi.op == oConst && lo.op == oConst {
 		return tt.Const(hi.k<<lo.w|lo.k, w)
+	}
+	// concat(extract(x,h,l), extract(x,l-1,m)) = extract(x,h,m)
+	if hi.op == oExtract && lo.op == oExtract && hi.a == lo.a && uint8(hi.k) == uint8(lo.k>>8)+1 {
+		return tt.Extract(hi.a, uint8(hi.k>>8), uint8(lo.k))
+	}
+	if hi.op == oExtract && lo.op == oConcat && lo.a.op == oExtract && hi.a == lo.a.a && uint8(hi.k) == uint8(lo.a.k>>8)+1 {
+		return tt.Concat(tt.Extract(hi.a, uint8(hi.k>>8), uint8(lo.a.k)), lo.b)
+	}
+	// zero high part = zero extension
+	if hi.op == oConst && hi.k == 0 {
+		return tt.ZExt(lo, w)
 	}
 	return tt.mk(oConcat, w, hi, lo, nil, 0, "")
 }
@@ -842,4 +945,102 @@ func (t *Term) write(sb *strings.Builder, depth int) {
 	sb.WriteString(")")
 }
 
-var _ = bits.Len64
+// ---- placed pieces: terms of the form "t at bit offset lo, zero elsewhere" ----
+
+type piece struct {
+	lo uint8
+	t  *Term
+}
+
+// pieces decomposes a term into disjoint placed pieces if it has that form.
+func (tt *termTable) pieces(t *Term) ([]piece, bool) {
+	switch t.op {
+	case oConst:
+		if t.k == 0 {
+			return nil, true
+		}
+		// a constant is a piece covering its significant bits
+		hiBit := uint8(bits.Len64(t.k))
+		loBit := uint8(bits.TrailingZeros64(t.k))
+		return []piece{{loBit, tt.Const(t.k>>loBit, hiBit-loBit)}}, true
+	case oZExt:
+		if ps, ok := tt.pieces(t.a); ok {
+			return ps, true
+		}
+		return []piece{{0, t.a}}, true
+	case oConcat:
+		ph, ok1 := tt.pieces(t.a)
+		if !ok1 {
+			ph = []piece{{0, t.a}}
+		}
+		pl, ok2 := tt.pieces(t.b)
+		if !ok2 {
+			pl = []piece{{0, t.b}}
+		}
+		out := append([]piece(nil), pl...)
+		for _, p := range ph {
+			out = append(out, piece{p.lo + t.b.w, p.t})
+		}
+		return out, true
+	case oExtract, oVar:
+		if t.w <= 32 {
+			return []piece{{0, t}}, true
+		}
+	}
+	return nil, false
+}
+
+func disjoint(a, b []piece) bool {
+	for _, p := range a {
+		for _, q := range b {
+			if int(p.lo) < int(q.lo)+int(q.t.w) && int(q.lo) < int(p.lo)+int(p.t.w) {
+				return false
+			}
+		}
+	}
+	return true
+}
+
+// fromPieces rebuilds a width-w term from disjoint pieces (gaps are zero).
+func (tt *termTable) fromPieces(ps []piece, w uint8) *Term {
+	// sort by lo descending (insertion sort; few pieces)
+	for i := 1; i < len(ps); i++ {
+		for j := i; j > 0 && ps[j].lo > ps[j-1].lo; j-- {
+			ps[j], ps[j-1] = ps[j-1], ps[j]
+		}
+	}
+	var res *Term
+	next := int(w) // next unfilled bit position (exclusive upper bound)
+	for _, p := range ps {
+		top := int(p.lo) + int(p.t.w)
+		if top > next {
+			panic("fromPieces: overlapping pieces")
+		}
+		if top < next {
+			z := tt.Const(0, uint8(next-top))
+			if res == nil {
+				res = z
+			} else {
+				res = tt.Concat(res, z)
+			}
+		}
+		if res == nil {
+			res = p.t
+		} else {
+			res = tt.Concat(res, p.t)
+		}
+		next = int(p.lo)
+	}
+	if next > 0 {
+		z := tt.Const(0, uint8(next))
+		if res == nil {
+			res = z
+		} else {
+			res = tt.Concat(res, z)
+		}
+	}
+	if res == nil {
+		return tt.Const(0, w)
+	}
+	return res
+}
